@@ -7,7 +7,9 @@ import (
 	"fmt"
 	"io"
 	"net/http"
+	"os"
 	"sort"
+	"strings"
 	"sync"
 	"time"
 )
@@ -34,11 +36,11 @@ type netReq struct {
 	fate     *netFate
 	reply    chan *netReply
 	// origin side
-	arrived   bool
-	answered  bool
-	delivered bool
-	resp      *originResp
-	cancelled bool
+	arrived     bool
+	answered    bool
+	delivered   bool
+	resp        *originResp
+	cancelled   bool
 	deliveredAt time.Duration
 }
 
@@ -243,6 +245,9 @@ func (n *cliNet) deliver(nr *netReq) {
 		b := f.mutation(nr.url, resp.body)
 		nr.reply <- &netReply{resp: mkResponse(nr.req, resp.status, resp.ctype, io.NopCloser(bytes.NewReader(b)))}
 		return
+	}
+	if d := os.Getenv("VERIF_DUMP"); d != "" {
+		os.WriteFile(fmt.Sprintf("%s/%03d_%s", d, nr.id, strings.ReplaceAll(strings.TrimPrefix(nr.url, "http://"), "/", "_")), resp.body, 0o644)
 	}
 	nr.reply <- &netReply{resp: mkResponse(nr.req, resp.status, resp.ctype, io.NopCloser(bytes.NewReader(resp.body)))}
 }
